@@ -146,10 +146,12 @@ theorem only_caller_pays (chk : DisabledCheck) (tbl : List MInfo) (hok : tableOk
           simp only [effect, hp] at h
           split at h
           · cases h
-          · injection h with h; subst h
-            refine ⟨?_, Nat.le_refl _, fun e he hs => ⟨e, he, rfl, hs, Nat.le_refl _⟩, .inl ?_, fun _ => .inl rfl⟩
-            · simp [claim, upd, ha]
-            · simp [claim, upd, ha]
+          · split at h
+            · cases h
+            · injection h with h; subst h
+              refine ⟨?_, Nat.le_refl _, fun e he hs => ⟨e, he, rfl, hs, Nat.le_refl _⟩, .inl ?_, fun _ => .inl rfl⟩
+              · simp [claim, upd, ha, World.setRaw]
+              · simp [claim, upd, ha, World.setRaw]
         | undelegate amt =>
           have hp : resolve i.payer env (.undelegate amt) = env.caller := by
             rcases hpay with hp | ⟨_, hn, _⟩
@@ -160,7 +162,7 @@ theorem only_caller_pays (chk : DisabledCheck) (tbl : List MInfo) (hok : tableOk
           · cases h
           · injection h with h; subst h
             refine ⟨?_, ?_, fun e he hs => ⟨e, he, rfl, hs, Nat.le_refl _⟩, .inl ?_, fun _ => .inl rfl⟩ <;>
-              simp [claim, upd, ha]
+              simp [claim, upd, ha, World.setRaw]
         | redelegate amt =>
           have hp : resolve i.payer env (.redelegate amt) = env.caller := by
             rcases hpay with hp | ⟨_, hn, _⟩
@@ -169,9 +171,11 @@ theorem only_caller_pays (chk : DisabledCheck) (tbl : List MInfo) (hok : tableOk
           simp only [effect, hp] at h
           split at h
           · cases h
-          · injection h with h; subst h
-            refine ⟨?_, Nat.le_refl _, fun e he hs => ⟨e, he, rfl, hs, Nat.le_refl _⟩, .inl ?_, fun _ => .inl rfl⟩ <;>
-              simp [claim, upd, ha]
+          · split at h
+            · cases h
+            · injection h with h; subst h
+              refine ⟨?_, Nat.le_refl _, fun e he hs => ⟨e, he, rfl, hs, Nat.le_refl _⟩, .inl ?_, fun _ => .inl rfl⟩ <;>
+                simp [claim, upd, ha, World.setRaw]
         | withdraw =>
           have hp : resolve i.payer env .withdraw = env.caller := by
             rcases hpay with hp | ⟨_, hn, _⟩
@@ -311,7 +315,7 @@ theorem disabled_never_runs (tbl : List MInfo) (dis : List (List Char)) (ro : Bo
 
 /-- and a dispatcher that is neither read-only-blocked nor disabled does run the method (the guards are not vacuous) -/
 example : ∃ w', run disabledCheck minfos [] false ['0','x','1'] ['a'] ⟨1, 1, 7, 0⟩ (.approve 2 5)
-    ⟨fun _ => 0, fun _ => 0, fun _ => 0, fun _ => 0, fun _ _ => 0, [], 1⟩ = .ok w' := ⟨_, rfl⟩
+    ⟨fun _ => 0, fun _ => 0, fun _ => 0, fun _ => 0, fun _ _ => 0, [], 1, fun _ => 0, 0, 0⟩ = .ok w' := ⟨_, rfl⟩
 
 /-! ### round 2: the same statements over the dispatcher assembled from regenerated CODE (`runGen`) -/
 open FxVerif.Gen.C10 FxVerif.Proofs.C10
@@ -541,7 +545,9 @@ theorem specEffect_allow (c : Addr) (call : Call) (w w' : World) (h : specEffect
     simp only [specEffect, effect] at h
     split at h
     · cases h
-    · cases h; exact ⟨fun _ _ he => (nomatch he), fun _ _ _ he => (nomatch he), fun _ _ => rfl⟩
+    · split at h
+      · cases h
+      · cases h; exact ⟨fun _ _ he => (nomatch he), fun _ _ _ he => (nomatch he), fun _ _ => rfl⟩
   | undelegate x =>
     simp only [specEffect, effect] at h
     split at h
@@ -551,7 +557,9 @@ theorem specEffect_allow (c : Addr) (call : Call) (w w' : World) (h : specEffect
     simp only [specEffect, effect] at h
     split at h
     · cases h
-    · cases h; exact ⟨fun _ _ he => (nomatch he), fun _ _ _ he => (nomatch he), fun _ _ => rfl⟩
+    · split at h
+      · cases h
+      · cases h; exact ⟨fun _ _ he => (nomatch he), fun _ _ _ he => (nomatch he), fun _ _ => rfl⟩
   | crossChain x y r =>
     simp only [specEffect, effect] at h
     split at h
@@ -657,6 +665,100 @@ theorem history_noncaller_safe (ops : List HOp) (w : World) (a : Addr) (ha : ∀
     simp only [runH, List.foldl_cons, totalMoved] at hsh ⊢
     omega
 
+/-- the fractional shares ("dust", 10^-18 units) of an account other than the direct caller are not touched by any call
+(specification level): only `delegateV2` / `undelegateV2` / `redelegateV2` produce or consume fractions, and only in the
+caller's own delegation; the share-denominated methods move whole shares -/
+theorem specEffect_dust (c : Addr) (call : Call) (w w' : World) (h : specEffect c call w = .ok w') (a : Addr) (ha : a ≠ c) :
+    w'.dust a = w.dust a := by
+  have hmove : ∀ (w0 w1 : World) p to s, moveShares w0 p to s = .ok w1 → w1.dust = w0.dust := by
+    intro w0 w1 p to s hm
+    unfold moveShares at hm
+    split at hm
+    · cases hm
+    · split at hm <;> (cases hm; rfl)
+  cases call with
+  | approve sp s => simp only [specEffect, effect] at h; cases h; rfl
+  | transferFromShares f t s =>
+    simp only [specEffect, effect, ↓reduceIte] at h
+    split at h
+    · cases h
+    · rw [hmove { w with allow := upd2 w.allow f c (w.allow f c - s) } _ _ _ _ h]
+  | transferShares t s => simp only [specEffect, effect] at h; rw [hmove _ _ _ _ _ h]
+  | view n => simp only [specEffect, effect] at h; cases h; rfl
+  | executeClaim n => simp only [specEffect, effect] at h; cases h; rfl
+  | withdraw =>
+    simp only [specEffect, effect] at h
+    split at h
+    · cases h
+    · cases h; rfl
+  | delegate x =>
+    simp only [specEffect, effect] at h
+    split at h
+    · cases h
+    · split at h
+      · cases h
+      · cases h; simp [World.setRaw, claim, upd, ha]
+  | undelegate x =>
+    simp only [specEffect, effect] at h
+    split at h
+    · cases h
+    · cases h; simp [World.setRaw, claim, upd, ha]
+  | redelegate x =>
+    simp only [specEffect, effect] at h
+    split at h
+    · cases h
+    · split at h
+      · cases h
+      · cases h; simp [World.setRaw, claim, upd, ha]
+  | crossChain x y r =>
+    simp only [specEffect, effect] at h
+    split at h
+    · cases h
+    · cases h; rfl
+  | bridgeCall r t v =>
+    simp only [specEffect, effect] at h
+    split at h
+    · cases h
+    · cases h; rfl
+  | increaseFee i f =>
+    simp only [specEffect, effect] at h
+    split at h
+    · cases h
+    · cases h; rfl
+  | cancelSend i =>
+    simp only [specEffect, effect] at h
+    split at h
+    · cases h
+    · split at h
+      · cases h
+      · cases h; rfl
+
+-- non-vacuity: a delegation by account 1 on a validator slashed by half leaves account 4's dust alone
+example : ∃ w', specEffect 1 (.delegate 3)
+    ⟨fun _ => 10, fun _ => 10, fun _ => 0, fun _ => 0, fun _ _ => 0, [], 1, fun a => if a = 4 then 7 else 0, 100, 200 * shareScale⟩ = .ok w' ∧ (4 : Addr) ≠ 1 :=
+  ⟨_, rfl, by decide⟩
+
+/-- HISTORIES on slashed validators (round 4): over EVERY history of precompile calls by others — any callers, call kinds,
+governance settings, on a validator with any exchange rate — the fractional part of `a`'s delegation is exactly what it
+was; with `history_noncaller_safe` (whole shares leave only within allowances): the delegation of a non-caller, counted
+in 10^-18 share units, is reduced by nothing but allowance-covered `transferFromShares` -/
+theorem history_noncaller_dust_unchanged (ops : List HOp) (w : World) (a : Addr) (ha : ∀ o ∈ ops, o.env.caller ≠ a) :
+    (runH ops w).dust a = w.dust a := by
+  induction ops generalizing w with
+  | nil => rfl
+  | cons o r ih =>
+    have hstep : (applyOp w o).dust a = w.dust a := by
+      rcases applyOp_spec w o with ⟨_, hw⟩ | ⟨_, heff, _, _⟩ | ⟨_, hw, _⟩
+      · rw [hw]
+      · exact specEffect_dust _ _ _ _ heff a (Ne.symm (ha o (List.mem_cons_self ..)))
+      · rw [hw]
+    have := ih (applyOp w o) (fun o' ho' => ha o' (List.mem_cons_of_mem _ ho'))
+    simp only [runH, List.foldl_cons] at this ⊢
+    rw [this, hstep]
+-- non-vacuity: a history in which account 1 delegates on a validator slashed by half while account 4 never calls
+example : (∀ o ∈ [(⟨.call, [], "a".toList, "b".toList, ⟨1, 1, 6, 0⟩, .delegate 3⟩ : HOp)], o.env.caller ≠ 4) := by
+  intro o ho; simp at ho; subst ho; decide
+
 /-- HISTORIES, corollary: an account that never calls and has granted no allowance loses nothing at all — no share, no
 coin, no reward, no unbonding entry, no queued withdrawal — under any history of precompile calls by others, and
 still has no allowance granted at the end (nobody can approve on its behalf) -/
@@ -682,7 +784,7 @@ theorem history_no_allowance_untouchable (ops : List HOp) (w : World) (a : Addr)
 /-- non-vacuity: a history in which an owner approves 2^256−1 and the spender then moves shares three times; the allowance
 ends at 2^256−1 − (sum moved) and the three transfers all succeed -/
 example :
-    let W : World := ⟨fun _ => 0, fun a => if a = 4 then 100 else 0, fun _ => 0, fun _ => 0, fun _ _ => 0, [], 1⟩
+    let W : World := ⟨fun _ => 0, fun a => if a = 4 then 100 else 0, fun _ => 0, fun _ => 0, fun _ _ => 0, [], 1, fun _ => 0, 100, 100 * shareScale⟩
     let mk (c : Addr) (call : Call) : HOp := ⟨.call, [], ['0', 'x'], ['a'], ⟨c, 3, 7, 0⟩, call⟩
     let ops := [mk 4 (.approve 1 (2 ^ 256 - 1)), mk 1 (.transferFromShares 4 2 10), mk 1 (.transferFromShares 4 1 20),
                 mk 1 (.transferFromShares 4 4 5)]
@@ -713,6 +815,185 @@ theorem transfer_handler_flow :
        ("new", "toDel:sdk.AccAddress(to.Bytes()).String():sdkmath.LegacyZeroDec()"),
        ("withdraw", "sdk.AccAddress(to.Bytes()).String()"), ("sub", "fromDel:shares"), ("remove", "fromDel"), ("set", "fromDel"),
        ("add", "toDel:shares"), ("set", "toDel")] := by decide
+
+/-- division with remainder on the 10^-18 representation: writing a delegation back and reading it again is the identity -/
+theorem setRaw_raw (w : World) (a : Addr) (r : Nat) : (w.setRaw a r).raw a = r := by
+  simp only [World.setRaw, World.raw, upd, ↓reduceIte]
+  exact Nat.div_add_mod' r shareScale
+
+/-- round 4 (redelegate is part of the histories now, on slashed validators too): a `redelegateV2` the regenerated
+dispatcher lets through takes exactly the shares `amt` tokens are worth at the validator's CURRENT rate
+(`DelegatorShares · amt / Tokens`, truncated, in 10^-18 units) out of the DIRECT CALLER's delegation — never more than
+it holds —, pays the caller's pending rewards to the caller itself, and touches no allowance, no unbonding entry, no
+queued withdrawal and nobody else's shares, dust, balance or rewards (`delegator = contract.Caller()` comes from the
+regenerated payer column through `runGen_refines`) -/
+theorem redelegate_exact (dis : List (List Char)) (ro : Bool) (addr mid : List Char) (env : Env) (amt : Nat) (w w' : World)
+    (h : (runGen dis ro addr mid env (.redelegate amt) w).out = .ok w') :
+    w.sharesFor amt ≤ w.raw env.caller ∧ w'.raw env.caller = w.raw env.caller - w.sharesFor amt ∧
+    (∀ a, a ≠ env.caller → w'.shares a = w.shares a ∧ w'.dust a = w.dust a ∧ w'.bal a = w.bal a ∧ w'.rewards a = w.rewards a) ∧
+    w'.bal env.caller = w.bal env.caller + w.rewards env.caller ∧ w'.rewards env.caller = 0 ∧
+    w'.unbonding = w.unbonding ∧ w'.allow = w.allow ∧ w'.pool = w.pool := by
+  rw [runGen_refines _ _ _ _ _ _ _ (by rfl)] at h
+  unfold specRun at h
+  split at h
+  · cases h
+  · split at h
+    · cases h
+    · simp only [specEffectV, specValueOk, specEffect, effect, Call.name] at h
+      split at h
+      · split at h
+        · cases h
+        · rename_i hlt
+          split at h
+          · cases h
+          cases h
+          have hr : ∀ x, (claim w env.caller).raw x = w.raw x := fun _ => rfl
+          have hs : (claim w env.caller).sharesFor amt = w.sharesFor amt := rfl
+          refine ⟨by omega, ?_, ?_, by simp [World.setRaw, claim, upd], by simp [World.setRaw, claim, upd],
+            by simp [World.setRaw, claim], by simp [World.setRaw, claim], by simp [World.setRaw, claim]⟩
+          · rw [setRaw_raw, hr, hs]
+          · intro a ha
+            simp [World.setRaw, claim, upd, ha]
+      · cases h
+-- non-vacuity: a redelegation of 3 tokens on a validator slashed by half (100 tokens for 200 shares) takes 6 shares
+example : ∃ w', (runGen [] false "0x0000000000000000000000000000000000001003".toList "x".toList ⟨1, 9, 6, 0⟩ (.redelegate 3)
+    ⟨fun _ => 10, fun _ => 10, fun _ => 2, fun _ => 0, fun _ _ => 0, [], 1, fun _ => 0, 100, 200 * shareScale⟩).out = .ok w' ∧
+    w'.shares 1 = 4 := by
+  rw [runGen_refines _ _ _ _ _ _ _ (by rfl)]
+  exact ⟨_, rfl, by decide⟩
+
+/-! ### round 4 — the validator's exchange rate (slashed validators) -/
+
+/-- On a validator that was never slashed (`DelegatorShares = Tokens`, i.e. `vShr = vTok · 10^18`) the rate arithmetic is
+the 1 : 1 rule the model used before round 4: `amt` tokens are worth exactly `amt` whole shares and back -/
+theorem unslashed_rate_is_one_to_one (w : World) (amt : Nat) (hT : 0 < w.vTok) (hr : w.vShr = w.vTok * shareScale) :
+    w.sharesFor amt = amt * shareScale ∧ (amt ≤ w.vTok → w.tokensFor (amt * shareScale) = amt) := by
+  have hS : 0 < shareScale := by decide
+  have hne : w.vShr ≠ 0 := by rw [hr]; exact Nat.ne_of_gt (Nat.mul_pos hT hS)
+  constructor
+  · have hne' : w.vTok * shareScale ≠ 0 := hr ▸ hne
+    simp only [World.sharesFor, hr, hne', ↓reduceIte]
+    rw [Nat.mul_assoc, Nat.mul_div_cancel_left _ hT, Nat.mul_comm]
+  · intro hle
+    simp only [World.tokensFor, hr]
+    split
+    · rename_i h0
+      have : w.vTok * shareScale ≤ amt * shareScale := Nat.sub_eq_zero_iff_le.mp h0
+      have := Nat.le_of_mul_le_mul_right this hS
+      omega
+    · have e : amt * shareScale * w.vTok * shareScale * shareScale = amt * shareScale * shareScale * (w.vTok * shareScale) := by ac_rfl
+      rw [e, Nat.mul_div_cancel _ (Nat.mul_pos hT hS), chopRound_mul, Nat.mul_div_cancel _ hS]
+
+example : (0 : Nat) < 100 ∧ (100 * shareScale : Nat) = 100 * shareScale := ⟨by decide, rfl⟩
+
+/-- … hence on an unslashed validator `delegateV2(amt)` gives the payer exactly `amt` whole shares, no dust, and leaves
+the validator unslashed — the statement the 1 : 1 model made, now a theorem about the rate model -/
+theorem delegate_on_unslashed_validator_is_one_to_one (i : MInfo) (p c : Addr) (amt : Nat) (w w' : World)
+    (hT : 0 < w.vTok) (hr : w.vShr = w.vTok * shareScale) (hd : w.dust p = 0)
+    (h : effect i p c (.delegate amt) w = .ok w') :
+    w'.shares p = w.shares p + amt ∧ w'.dust p = 0 ∧ w'.vShr = w'.vTok * shareScale ∧ w'.vTok = w.vTok + amt := by
+  have hS : 0 < shareScale := by decide
+  simp only [effect] at h
+  split at h
+  · cases h
+  · split at h
+    · cases h
+    · cases h
+      have h1 : (claim w p).sharesFor amt = amt * shareScale := (unslashed_rate_is_one_to_one w amt hT hr).1
+      have h2 : (claim w p).raw p = w.shares p * shareScale := by simp [World.raw, claim, hd]
+      simp only [World.setRaw, upd, ↓reduceIte, h1, h2]
+      refine ⟨?_, ?_, ?_, rfl⟩
+      · rw [← Nat.add_mul, Nat.mul_div_cancel _ hS]
+      · rw [← Nat.add_mul, Nat.mul_mod_left]
+      · show w.vShr + amt * shareScale = (w.vTok + amt) * shareScale
+        rw [hr, Nat.add_mul]
+example : ∃ w', effect ⟨"delegateV2", false, .caller, false⟩ 1 1 (.delegate 3)
+    ⟨fun _ => 10, fun _ => 10, fun _ => 0, fun _ => 0, fun _ _ => 0, [], 1, fun _ => 0, 100, 100 * shareScale⟩ = .ok w' := ⟨_, rfl⟩
+
+/-- DILUTION BOUND, every world (slashed or not), every amount, every payer: a `delegateV2`, `undelegateV2` or
+`redelegateV2` — whoever makes it — leaves every OTHER delegator's shares and dust untouched, and
+* `delegateV2` never lowers the validator's tokens-per-share rate (`vTok / vShr` before ≤ after, cross-multiplied): shares
+  are issued with `DelegatorShares · amt / Tokens` rounded DOWN;
+* `undelegateV2` / `redelegateV2` lower it by at most `1 / (2 · 10^18 · vShr')`: the SDK pays `shares · Tokens /
+  DelegatorShares` out through `LegacyDec.Quo`, which ROUNDS (half to even) at the 18th decimal before the integer part is
+  taken — so, against the comment in `RemoveDelShares` ("leave excess tokens in the validator"), a worth within 5·10^-19 below
+  a whole base unit is paid out as that unit; all other delegators together lose at most half of 10^-18 base units per call.
+So the token worth of nobody else's delegation is reduced by more than that rounding residue -/
+theorem others_delegation_worth_not_reduced (i : MInfo) (p c : Addr) (amt : Nat) (call : Call)
+    (hc : call = .delegate amt ∨ call = .undelegate amt ∨ call = .redelegate amt) (w w' : World) (hS : 0 < w.vShr)
+    (h : effect i p c call w = .ok w') (a : Addr) (ha : a ≠ p) :
+    w'.raw a = w.raw a ∧
+    (call = .delegate amt → w.vTok * w'.vShr ≤ w'.vTok * w.vShr) ∧
+    2 * shareScale * (w.vTok * w'.vShr) ≤ 2 * shareScale * (w'.vTok * w.vShr) + w.vShr := by
+  have hne : w.vShr ≠ 0 := Nat.ne_of_gt hS
+  have hsf : (claim w p).sharesFor amt = w.vShr * amt / w.vTok := by simp [World.sharesFor, claim, hne]
+  have hout : ∀ r, 2 * shareScale * (w.vTok * (w.vShr - r)) ≤
+      2 * shareScale * ((w.vTok - (claim w p).tokensFor r) * w.vShr) + w.vShr := fun r => removal_bound w.vTok w.vShr r hS
+  rcases hc with rfl | rfl | rfl
+  · simp only [effect] at h
+    split at h
+    · cases h
+    · split at h
+      · cases h
+      · cases h
+        have hd : w.vTok * (w.vShr + (claim w p).sharesFor amt) ≤ (w.vTok + amt) * w.vShr := by
+          rw [hsf, Nat.mul_add, Nat.add_mul, Nat.mul_comm amt w.vShr]
+          exact Nat.add_le_add_left (Nat.mul_div_le _ _) _
+        refine ⟨by simp [World.raw, World.setRaw, claim, upd, ha], fun _ => hd, ?_⟩
+        exact Nat.le_trans (Nat.mul_le_mul_left _ hd) (Nat.le_add_right _ _)
+  · simp only [effect] at h
+    split at h
+    · cases h
+    · cases h
+      refine ⟨by simp [World.raw, World.setRaw, claim, upd, ha], ?_, hout _⟩
+      intro hh; cases hh
+  · simp only [effect] at h
+    split at h
+    · cases h
+    · split at h
+      · cases h
+      · cases h
+        refine ⟨by simp [World.raw, World.setRaw, claim, upd, ha], ?_, hout _⟩
+        intro hh; cases hh
+-- non-vacuity: an undelegation on a validator slashed by a third (200 tokens for 300 shares) goes through
+example : (∃ w', effect ⟨"undelegateV2", false, .caller, false⟩ 1 1 (.undelegate 4)
+    ⟨fun _ => 10, fun _ => 10, fun _ => 0, fun _ => 0, fun _ _ => 0, [], 1, fun _ => 0, 200, 300 * shareScale⟩ = .ok w') ∧
+    0 < (300 * shareScale : Nat) := ⟨⟨_, rfl⟩, by decide⟩
+
+/-- the share-denominated methods (`approveShares`, `transferShares`, `transferFromShares`) that the regenerated
+dispatcher lets through never touch the validator's rate nor anybody's dust: whole shares move, fractions stay -/
+theorem share_methods_leave_rate_and_dust (dis : List (List Char)) (ro : Bool) (addr mid : List Char) (env : Env) (call : Call)
+    (w w' : World) (hs : isShareCall call = true) (h : (runGen dis ro addr mid env call w).out = .ok w') :
+    w'.dust = w.dust ∧ w'.vTok = w.vTok ∧ w'.vShr = w.vShr := by
+  have hv : call.isView = false := by cases call <;> simp_all [isShareCall, Call.isView]
+  rw [runGen_refines _ _ _ _ _ _ _ hv] at h
+  unfold specRun at h
+  have hmove : ∀ (w0 w1 : World) p to s, moveShares w0 p to s = .ok w1 →
+      w1.dust = w0.dust ∧ w1.vTok = w0.vTok ∧ w1.vShr = w0.vShr := by
+    intro w0 w1 p to s hm
+    unfold moveShares at hm
+    split at hm
+    · cases hm
+    · split at hm <;> (cases hm; exact ⟨rfl, rfl, rfl⟩)
+  split at h
+  · cases h
+  · split at h
+    · cases h
+    · have h : specEffect env.caller call w = .ok w' := by
+        unfold specEffectV at h
+        split at h
+        · exact h
+        · cases h
+      cases call with
+      | approve sp s => simp only [specEffect, effect] at h; cases h; exact ⟨rfl, rfl, rfl⟩
+      | transferShares t s => simp only [specEffect, effect] at h; exact hmove _ _ _ _ _ h
+      | transferFromShares f t s =>
+        simp only [specEffect, effect, ↓reduceIte] at h
+        split at h
+        · cases h
+        · exact hmove { w with allow := upd2 w.allow f env.caller (w.allow f env.caller - s) } _ _ _ _ h
+      | _ => simp [isShareCall] at hs
+example : isShareCall (.transferShares 2 1) = true := rfl
 
 /-- FRAME: an account that is neither the direct caller nor named as `from` / `to` of a share transfer is left EXACTLY as
 it was by any call that the regenerated dispatcher lets through — same balance, same pending rewards (nothing is
@@ -771,17 +1052,21 @@ theorem uninvolved_unchanged (dis : List (List Char)) (ro : Bool) (addr mid : Li
         simp only [specEffect, effect] at h
         split at h
         · cases h
-        · cases h; simp [claim, upd, ha]
+        · split at h
+          · cases h
+          · cases h; simp [claim, upd, ha, World.setRaw]
       | undelegate x =>
         simp only [specEffect, effect] at h
         split at h
         · cases h
-        · cases h; simp [claim, upd, ha]
+        · cases h; simp [claim, upd, ha, World.setRaw]
       | redelegate x =>
         simp only [specEffect, effect] at h
         split at h
         · cases h
-        · cases h; simp [claim, upd, ha]
+        · split at h
+          · cases h
+          · cases h; simp [claim, upd, ha, World.setRaw]
       | crossChain x y r =>
         simp only [specEffect, effect] at h
         split at h
@@ -867,6 +1152,16 @@ open FxVerif.Gen.C10Tok FxVerif.Model.C10Tok FxVerif.Proofs.C10Tok
 /-- every `Run` that calls `handlerERC20Token` hands it `contract.Caller()` as the account whose tokens move (two sites:
 `crossChain`, `increaseBridgeFee`); with `precompile_frame_is_direct_caller` that is the DIRECT caller of the precompile -/
 theorem erc20_leg_sites_use_caller : erc20LegSites.all (fun s => s.2 == "caller") = true ∧ erc20LegSites.length = 2 := by decide
+
+/-- round 4: everything of `handlerERC20Token` / `convertERC20` that the translator did NOT turn into an op of `erc20Leg` is,
+character for character and in order, the reviewed list — a new statement (a second transfer hidden behind a helper that
+takes no ctx, a new early return after the `transferFrom`, a bare expression) makes this obligation fail -/
+theorem erc20_leg_skipped_statements_are_the_reviewed_ones : erc20LegSkipped = reviewedErc20LegSkipped := by rfl
+
+/-- … and each was passed over for one of the reviewed reasons (reads, ERC-20 views, call-object construction, error tests,
+the not-found return, returns) -/
+theorem erc20_leg_skipped_only_for_reviewed_reasons :
+    ∀ s ∈ erc20LegSkipped, s.1 ∈ skipReasons := by decide
 
 /-- the regenerated statement list, run on ANY token world, amount, pair kind (coin-backed / FX / contract-owned / neither)
 and role assignment, computes exactly the closed form `legSpec`: ERC-20 `transferFrom(sender → erc20 module)` issued by
